@@ -11,17 +11,42 @@ from vlib import clirun, gen, evm
 from monitors import cli_props
 
 
-def tamper(log, rnd):
+KINDS = ["subst-same", "subst-other", "delete", "duplicate", "swap", "truncate", "rekey", "dupswap-index",
+         "insert-foreign", "empty-entry", "empty-block", "drop-entry", "drop-block", "reverse", "empty-all"]
+
+
+def tamper(log, rnd, kind=None):
     """returns (kind, new log) or None"""
     keys = [k for k, v in log.items() if v]
     if not keys:
         return None
     k = rnd.choice(keys)
     ids = list(log[k])
-    kind = rnd.choice(["subst-same", "subst-other", "delete", "duplicate", "swap", "truncate", "rekey", "dupswap-index",
-                       "insert-foreign"])
+    kind = kind or rnd.choice(KINDS)
     new = {a: list(b) for a, b in log.items()}
     i = rnd.randrange(len(ids))
+    block_of = lambda key: key.rsplit("_", 1)[0]
+    if kind in ("empty-entry", "empty-block", "drop-entry", "drop-block", "empty-all", "reverse"):
+        # whole-entry and whole-block edits: an entry (or every sub-block entry of one block, or of every block)
+        # emptied or removed; an entry reversed
+        same_block = [kk for kk in log if block_of(kk) == block_of(k)]
+        if kind == "empty-entry":
+            new[k] = []
+        elif kind == "empty-block":
+            for kk in same_block:
+                new[kk] = []
+        elif kind == "drop-entry":
+            del new[k]
+        elif kind == "drop-block":
+            for kk in same_block:
+                del new[kk]
+        elif kind == "empty-all":
+            new = {kk: [] for kk in log}
+        else:
+            if len(ids) < 2 or ids == ids[::-1]:
+                return None
+            new[k] = ids[::-1]
+        return (kind, new) if new != log else None
     if kind == "subst-same":
         others = [x for x in ids if x != ids[i]]
         if not others:
@@ -121,7 +146,7 @@ def run():
     quick = common.tier() == "quick"
     rnd = random.Random(common.seed() + 11)
     n_docs = 6 if quick else 40
-    n_tamper = 12 if quick else 50
+    n_tamper = 18 if quick else 60
     import os
     standin = os.path.join(os.path.dirname(os.path.dirname(os.path.abspath(__file__))), "vlib", "standin_solver")
     optsets = [["-greedy"], ["-greedy", "-size"], ["-greedy", "-partition"], ["-greedy", "-storage", "-push0"]]
@@ -156,7 +181,8 @@ def run():
         replay_jobs.append((doc, opts + ["-optimize-from-log", "the.log"], {"the.log": log_text}, envs.get(id(doc))))
         meta.append(("roundtrip", label, doc, opts, opt_text, None))
         for t in range(n_tamper):
-            tm = tamper(log, rnd)
+            # every kind at least once per document (when applicable), then random ones
+            tm = tamper(log, rnd, KINDS[t] if t < len(KINDS) else None)
             if tm is None:
                 continue
             kind, new = tm
